@@ -28,7 +28,13 @@ ASSUMPTIONS = [
     "patch!={}) -> AttributeError; delete_attr(missing) -> KeyError; match_uuid(unknown) -> SystemError (documented)",
 ]
 
-ADDRS = [["10.0.0.1", 50000], ["10.0.0.1", 50001], ["10.0.0.2", 50000], ["10.0.0.3", 62000]]
+# syntactically diverse hosts (IPv4, IPv6 loopback / link-local with zone, both sharing-an-IP cases); IPv4-mapped IPv6 forms
+# are deliberately absent: whether "::ffff:10.0.0.1" and "10.0.0.1" are the same peer is not for this check to decide
+ADDRS = [["10.0.0.1", 50000], ["10.0.0.1", 50001], ["::1", 50000], ["fe80::1%eth0", 62000]]
+# wider pool for the random histories (after seeded change C20-3: string handling that only bites hosts starting with
+# ':' / 'f', or that makes two distinct hosts collide)
+ADDRS_WIDE = ADDRS + [["10.0.0.2", 50000], ["1", 50000], ["e80::1%eth0", 62000], ["ff02::1", 1], ["fd00::2", 65535], ["fritz.box", 0],
+                      ["ritz.box", 0], ["localhost", 65535], ["", 0], ["", 1], ["::", 0], ["0.0.0.0", 0], ["255.255.255.255", 65535]]
 EMPTY = ["", 0]
 DYN_KEYS = ["registered", "rdac_step", "custom"]
 ADDR_FIELDS = ["address_in", "address_out", "address_nat"]
@@ -258,7 +264,7 @@ ALPHABET = [
     {"op": "save", "rec": 1, "patch": {"nat_enabled": True, "address_nat": ADDRS[2]}},
     {"op": "patch", "rec": 1, "patch": {"registered": False, "snmp_enabled": False}},
     {"op": "match_attr", "field": "address_in", "value": ADDRS[1]},
-    {"op": "match_ip_incoming", "ip": "10.0.0.1"},
+    {"op": "match_ip_incoming", "ip": "::1"},
     {"op": "match_uuid", "rec": 1},
     {"op": "attr", "rec": 0, "key": "registered", "value": 0},
     {"op": "delete_attr", "rec": 0, "key": "registered"},
@@ -312,8 +318,8 @@ def drv_exhaustive(ctx: Ctx, sub: SubCheck):
 def _strategies():
     from hypothesis import strategies as st
 
-    addr = st.sampled_from(ADDRS)
-    addr_or_empty = st.sampled_from(ADDRS + [EMPTY])
+    addr = st.sampled_from(ADDRS_WIDE)
+    addr_or_empty = st.sampled_from(ADDRS_WIDE + [EMPTY])
     field_patch = st.fixed_dictionaries(
         {},
         optional={
@@ -333,7 +339,7 @@ def _strategies():
             st.builds(lambda f, v: {"op": "match_attr", "field": f, "value": v}, st.sampled_from(ADDR_FIELDS), addr_or_empty),
             *[st.builds(lambda v, f=f: {"op": "match_attr", "field": f, "value": v}, st.sampled_from(vals)) for f, vals in SCALAR_FIELDS.items()],
         ),
-        "match_ip_incoming": st.builds(lambda ip: {"op": "match_ip_incoming", "ip": ip}, st.sampled_from(["10.0.0.1", "10.0.0.2", "10.0.0.3", "10.9.9.9", ""])),
+        "match_ip_incoming": st.builds(lambda ip: {"op": "match_ip_incoming", "ip": ip}, st.sampled_from(sorted({a[0] for a in ADDRS_WIDE} | {"10.9.9.9"}))),
         "match_uuid": st.builds(lambda r, u: {"op": "match_uuid", "rec": r, "unknown": u}, rec, st.booleans()),
         "attr": (st.builds(lambda r, k, v: {"op": "attr", "rec": r, "key": k, "value": v}, rec, st.sampled_from(DYN_KEYS), st.sampled_from(DYN_VALUES)), lambda r: bool(r.recs)),
         "delete_attr": (st.builds(lambda r, k: {"op": "delete_attr", "rec": r, "key": k}, rec, st.sampled_from(DYN_KEYS)), lambda r: bool(r.recs)),
